@@ -8,7 +8,8 @@ SPEC = {
         "period under BIP94); testnet min-difficulty rule as documented in pow.cpp/BIP94",
         "previous nBits restricted to values a valid chain can carry (canonical, non-zero, <= powLimit); block times are 32-bit (CBlockIndex::nTime)",
         "built-in chains only: main, testnet3, testnet4, signet, regtest",
-        "header timestamp rules (MTP, 2h future) and ProcessNewBlockHeaders verdicts are not exercised by these pure targets",
+        "node-level target c07_headers: regtest only (required nBits is always the limit there: no retargeting), header version fixed at 0x20000000, one-directional "
+        "(accepted => all rules hold); own median-time-past over an own header tree",
     ],
     "stages": [
         gen("vh_c07", "c07_compact", 900000, 14000000, min_cases_quick=100000,
@@ -22,6 +23,10 @@ SPEC = {
         gen("vh_c07", "c07_permitted", 600000, 9000000, min_cases_quick=80000,
             floors={"retarget-height-biting": 0.15, "new-at-window-bound+-1": 0.05, "refused-at-retarget": 0.03, "permitted": 0.2},
             rule="PermittedDifficultyTransition == cpp_int window reference; non-trivial = new target within one mantissa unit of a window bound at a biting retarget height"),
+        gen("vh_c07", "c07_headers", 1200, 20000, min_cases_quick=300,
+            floors={"accepted": 0.5, "refused:time-too-old": 0.2, "refused:time-too-new": 0.1, "refused:bad-diffbits": 0.15, "refused:high-hash": 0.15,
+                    "accepted-at-mtp+1": 0.1, "accepted-at-now+2h": 0.1, "time==mtp": 0.15, "time==now+2h+1": 0.1},
+            rule="regtest node: headers at the MTP / now+2h / nBits / PoW boundaries through ProcessNewBlockHeaders; every accepted header satisfies the own reference of the rules"),
         gen("vh_c07", "up_pow", 60000, 1000000, rule="upstream fuzz target pow (asserts + sanitizers), supplementary"),
         gen("vh_c07", "up_pow_transition", 20000, 300000, rule="upstream fuzz target pow_transition (required => permitted on mainnet), supplementary"),
     ],
@@ -33,6 +38,6 @@ META = {
                   "independent arbitrary-precision (boost cpp_int) reference on all five built-in chains, and check that every required difficulty is a "
                   "permitted transition. Exploration: sampled inputs (plus one exhaustive sub-lattice); not a proof over all 2^32 nBits x times.",
     "technique": "property-based testing: boundary-biased generators + exhaustive lattice vs independent big-integer reference model (differential), subset relation required => permitted",
-    "level_note": "The timestamp clauses of the statement (median-time-past, 2 h future) and end-to-end header acceptance need a node-level history target (c07_headers); "
-                  "they are not covered by these pure targets.",
+    "level_note": "The timestamp clauses (median-time-past, 2 h future) and end-to-end header acceptance are exercised by the node-level history target c07_headers on regtest only; "
+                  "retargeting on a live node (mainnet-like parameters) is covered by the pure targets, not end to end.",
 }
